@@ -270,13 +270,16 @@ def s_conv_subscript(ctx, shape=(None,)):
         # axis of the running result that corresponds to original axis a
         want = z3.IntVal(a)
         by_squeeze = any(b < a for b in squeezed)
-        by_tensor = any(b < a and b not in squeezed for b in shift)
+        by_tensor = any(b < a and b not in squeezed and kinds[b] != "const" for b in shift)
+        by_const_gather = any(b < a and b not in squeezed and kinds[b] == "const" for b in shift)
         for b, sh in shift.items():
             if b < a:
                 want = want + sh
         nm = "C11.converter.subscript.gather_axis_is_the_original_axis"
         if by_tensor:
             nm += ".after_tensor_index_on_earlier_axis"
+        elif by_const_gather:
+            nm += ".after_constant_index_gathered_on_an_earlier_axis"
         elif by_squeeze:
             nm += ".after_squeezed_scalar_axes"
         ctx.check(nm, ax == want,
@@ -323,3 +326,31 @@ SCENARIOS = [
 ]
 
 
+
+
+def s_normalize_subscript(_ctx):
+    """ast_utils.normalize_subscript_expr: the index components of `A[...]`, in order and UNCHANGED (the very AST nodes):
+    a component may not be replaced by another index form — e.g. an Ellipsis by `:`, which means something else for
+    every rank but one — so that the translator sees (and can refuse) what the user wrote."""
+    from contracts.c17_opsets import Agg
+    from pyvc.core import Ctx
+    from onnxscript._internal import ast_utils
+    agg = Agg()
+    n = 0
+    for src in ("A[1]", "A[i]", "A[1:2]", "A[1, :]", "A[..., 0]", "A[0, ...]", "A[x, ..., ::2]", "A[...]", "A[(1, 2)]", "A[None, 0]"):
+        n += 1
+        node = ast.parse(src, mode="eval").body
+        want = list(node.slice.elts) if isinstance(node.slice, ast.Tuple) else [node.slice]
+        I = Interp(Ctx([], {"solver_s": 0.0, "queries": 0}))
+        try:
+            got = list(I.run_closure(I.closure_of(ast_utils.normalize_subscript_expr), [node], {}))
+            ok = len(got) == len(want) and all(a is b for a, b in zip(got, want))
+            detail = f"{src}: components {[ast.dump(g) for g in got]} but the subscript has {[ast.dump(w) for w in want]}"
+        except Exception as e:  # noqa: BLE001
+            ok, detail = False, f"{src}: {type(e).__name__}: {e}"
+        agg.ob("C11.ast_utils.normalize_subscript_expr.returns_the_index_components_unchanged_and_in_order", ok, detail, CL, case=src)
+    return {"obligations": agg.obs, "paths": n, "covered": [f"subscripts={n}"], "notes": [], "functions": []}
+
+
+SCENARIOS.append(Scenario("C11.ast_utils.normalize_subscript_expr", s_normalize_subscript,
+                          [("onnxscript/_internal/ast_utils.py", "normalize_subscript_expr")], kind="evaluation"))
